@@ -44,6 +44,7 @@ type cVar struct {
 	PK    string `json:"pk"`   // panic value kind
 	Fast  int    `json:"fast"` // 0 reflective where possible, 1 prefer the built-in fast paths, 2 user FastInvoker
 	Reqs  int    `json:"reqs"` // how many times the request is issued on the same instance
+	Der   bool   `json:"der"`  // "C" installs a derived request context first and cancels that one
 }
 
 type chainCase struct {
@@ -146,7 +147,14 @@ func (x *chainExec) body(h int, c flamego.Context) {
 			c.Next()
 			x.ev(map[string]interface{}{"e": "nextret", "h": h})
 		case "C":
-			x.cancel()
+			if x.v.Der {
+				// the usual timeout-middleware pattern: replace the request by one with a derived context, then cancel it
+				ctx, cancel := gocontext.WithCancel(c.Request().Context())
+				c.Request().Request = c.Request().Request.WithContext(ctx)
+				cancel()
+			} else {
+				x.cancel()
+			}
 			x.ev(map[string]interface{}{"e": "cancel", "h": h})
 		case "P":
 			x.panicLog = true
@@ -344,6 +352,7 @@ func chainVarFor(c *chainCase, idx int) cVar {
 	n := c.N
 	v := cVar{Env: []string{"development", "production", "test"}[rng.Intn(3)],
 		PK: []string{"string", "error", "runtime", "struct", "abort"}[rng.Intn(5)], Fast: rng.Intn(3), Reqs: 1 + rng.Intn(2)}
+	v.Der = rng.Intn(2) == 0
 	v.Mw = rng.Intn(n + 1)
 	v.Group = rng.Intn(n - v.Mw + 1)
 	if rng.Intn(6) == 0 {
